@@ -3,6 +3,7 @@ import J5V.Schema.Wire
 import J5V.Schema.ReaderWire
 import J5V.Schema.PropSetModel
 import J5V.Schema.ReaderLinks
+import J5V.Schema.EnvModel
 /-!
 Line-protocol driver of the schema cluster (core only). One op per input line, one result per
 output line; see /verif/harness/PROTOCOL-schema.md.
@@ -54,6 +55,35 @@ def prClientProps (cps : List RProp) : String :=
     Wire.encStr p.json ++ "/" ++
       (if p.path.isEmpty then "~" else ".".intercalate (p.path.map fun n => toString n)))
 
+/-! the codec model's view of one root (`Bridge.entryRoot`), compact and without spaces -/
+
+def prScalarKind : J5V.Codec.ScalarKind → String
+  | .string => "string" | .key => "key" | .bool => "bool" | .int32 => "int32" | .int64 => "int64"
+  | .uint32 => "uint32" | .uint64 => "uint64" | .float32 => "float32" | .float64 => "float64"
+  | .bytes => "bytes" | .timestamp => "timestamp" | .date => "date" | .decimal => "decimal"
+
+def prCField : J5V.Codec.Field → String
+  | .scalar k => prScalarKind k
+  | .enum r => "enum:" ++ r
+  | .object r => "object:" ++ r
+  | .oneof r => "oneof:" ++ r
+  | .any pb => if pb then "any:pb" else "any:j5"
+  | .array i => "array(" ++ prCField i ++ ")"
+  | .map i => "map(" ++ prCField i ++ ")"
+
+def prPres : J5V.Codec.Pres → String
+  | .imp => "imp" | .opt => "opt" | .msg => "msg" | .list => "list" | .map => "map" | .none => "none"
+
+def prCProp (p : J5V.Codec.PropDef) : String :=
+  toHexW (p.jsonName.map (·.toNat)) ++ "/" ++
+  (if p.path.isEmpty then "~" else ".".intercalate (p.path.map toString)) ++ "/" ++ prPres p.pres ++ "/" ++
+  prCField p.field ++ "/" ++ (match p.group with | some g => toString g | none => "~")
+
+def prCRoot : J5V.Codec.Root → String
+  | .object ps => "obj[" ++ ";".intercalate (ps.map prCProp) ++ "]"
+  | .oneof ps => "oneof[" ++ ";".intercalate (ps.map prCProp) ++ "]"
+  | _ => "-"
+
 /-- the `SchemaCache.Schema` calls over every message of the set, on one cache -/
 def cacheLoop (ds : DescSet) : Reg → List String → List String
   | _, [] => []
@@ -80,7 +110,15 @@ def cacheLoop (ds : DescSet) : Reg → List String → List String
             | _ => "-"
           | none => "-"
         | _ => "-"
-      (Wire.encStr m.split ++ ":" ++ cls res ++ ":" ++ root ++ ":cp=" ++ cp) :: cacheLoop ds reg' rest
+      -- the env def of this root as the codec model gets it (`Bridge.toEnv`)
+      let env := match res with
+        | .ok _ =>
+          match reg'.find m.pkg m.split with
+          | some e => prCRoot (J5V.Schema.Bridge.entryRoot ds reg' e)
+          | none => "-"
+        | _ => "-"
+      (Wire.encStr m.split ++ ":" ++ cls res ++ ":" ++ root ++ ":cp=" ++ cp ++ ":env=" ++ env) ::
+        cacheLoop ds reg' rest
 
 def stepReflect (toks : List String) : String :=
   match toks with
